@@ -37,6 +37,9 @@ var repoPkgs = []string{
 	"reservoir/utils/event", "reservoir/utils/phc", "reservoir/utils/syncmap",
 	"reservoir/utils/typeutils", "reservoir/webserver/api", "reservoir/webserver/api/apitypes",
 	"reservoir/webserver/api/auth", "reservoir/webserver/auth", "reservoir/webserver/middleware",
+	"reservoir/webserver/api/endpoints/config", "reservoir/webserver/api/endpoints/log",
+	"reservoir/webserver/api/endpoints/metrics", "reservoir/webserver/api/endpoints/version",
+	"reservoir/webserver/api/auth/models",
 }
 
 // harnessOverlay builds the overlay map: every file under harnessDir/<import path>/ is
